@@ -9,6 +9,7 @@ import (
 	"strings"
 
 	"github.com/dpb587/cursorio-go/cursorio"
+	"github.com/dpb587/inspecthtml-go/inspecthtml"
 	"github.com/dpb587/rdfkit-go/encoding"
 	"github.com/dpb587/rdfkit-go/encoding/encodingutil"
 	encodinghtml "github.com/dpb587/rdfkit-go/encoding/html"
@@ -525,7 +526,7 @@ func (v *Decoder) walkNode(ectx evaluationContext, n *html.Node) error {
 					newSubjectAnno = nil
 
 					if v.captureOffsets {
-						if attrProfile := nodeProfile.TagAttr[attrAboutIdx]; attrProfile != nil && attrProfile.ValueOffsets != nil {
+						if attrProfile := tagAttrMetadata(nodeProfile, attrAboutIdx); attrProfile != nil && attrProfile.ValueOffsets != nil {
 							newSubjectAnno = attrProfile.ValueOffsets
 						}
 					}
@@ -556,7 +557,7 @@ func (v *Decoder) walkNode(ectx evaluationContext, n *html.Node) error {
 							typedResourceAnno = nil
 
 							if v.captureOffsets {
-								if attrProfile := nodeProfile.TagAttr[attrResourceIdx]; attrProfile != nil && attrProfile.ValueOffsets != nil {
+								if attrProfile := tagAttrMetadata(nodeProfile, attrResourceIdx); attrProfile != nil && attrProfile.ValueOffsets != nil {
 									typedResourceAnno = attrProfile.ValueOffsets
 								}
 							}
@@ -565,7 +566,7 @@ func (v *Decoder) walkNode(ectx evaluationContext, n *html.Node) error {
 							typedResourceAnno = nil
 
 							if v.captureOffsets {
-								if attrProfile := nodeProfile.TagAttr[attrHrefIdx]; attrProfile != nil && attrProfile.ValueOffsets != nil {
+								if attrProfile := tagAttrMetadata(nodeProfile, attrHrefIdx); attrProfile != nil && attrProfile.ValueOffsets != nil {
 									typedResourceAnno = attrProfile.ValueOffsets
 								}
 							}
@@ -574,7 +575,7 @@ func (v *Decoder) walkNode(ectx evaluationContext, n *html.Node) error {
 							typedResourceAnno = nil
 
 							if v.captureOffsets {
-								if attrProfile := nodeProfile.TagAttr[attrSrcIdx]; attrProfile != nil && attrProfile.ValueOffsets != nil {
+								if attrProfile := tagAttrMetadata(nodeProfile, attrSrcIdx); attrProfile != nil && attrProfile.ValueOffsets != nil {
 									typedResourceAnno = attrProfile.ValueOffsets
 								}
 							}
@@ -610,7 +611,7 @@ func (v *Decoder) walkNode(ectx evaluationContext, n *html.Node) error {
 						newSubjectAnno = nil
 
 						if v.captureOffsets {
-							if attrProfile := nodeProfile.TagAttr[attrAboutIdx]; attrProfile != nil && attrProfile.ValueOffsets != nil {
+							if attrProfile := tagAttrMetadata(nodeProfile, attrAboutIdx); attrProfile != nil && attrProfile.ValueOffsets != nil {
 								newSubjectAnno = attrProfile.ValueOffsets
 							}
 						}
@@ -623,7 +624,7 @@ func (v *Decoder) walkNode(ectx evaluationContext, n *html.Node) error {
 						newSubjectAnno = nil
 
 						if v.captureOffsets {
-							if attrProfile := nodeProfile.TagAttr[attrResourceIdx]; attrProfile != nil && attrProfile.ValueOffsets != nil {
+							if attrProfile := tagAttrMetadata(nodeProfile, attrResourceIdx); attrProfile != nil && attrProfile.ValueOffsets != nil {
 								newSubjectAnno = attrProfile.ValueOffsets
 							}
 						}
@@ -636,7 +637,7 @@ func (v *Decoder) walkNode(ectx evaluationContext, n *html.Node) error {
 						newSubjectAnno = nil
 
 						if v.captureOffsets {
-							if attrProfile := nodeProfile.TagAttr[attrHrefIdx]; attrProfile != nil && attrProfile.ValueOffsets != nil {
+							if attrProfile := tagAttrMetadata(nodeProfile, attrHrefIdx); attrProfile != nil && attrProfile.ValueOffsets != nil {
 								newSubjectAnno = attrProfile.ValueOffsets
 							}
 						}
@@ -649,7 +650,7 @@ func (v *Decoder) walkNode(ectx evaluationContext, n *html.Node) error {
 						newSubjectAnno = nil
 
 						if v.captureOffsets {
-							if attrProfile := nodeProfile.TagAttr[attrSrcIdx]; attrProfile != nil && attrProfile.ValueOffsets != nil {
+							if attrProfile := tagAttrMetadata(nodeProfile, attrSrcIdx); attrProfile != nil && attrProfile.ValueOffsets != nil {
 								newSubjectAnno = attrProfile.ValueOffsets
 							}
 						}
@@ -708,7 +709,7 @@ func (v *Decoder) walkNode(ectx evaluationContext, n *html.Node) error {
 					newSubjectAnno = nil
 
 					if v.captureOffsets {
-						if attrProfile := nodeProfile.TagAttr[attrAboutIdx]; attrProfile != nil && attrProfile.ValueOffsets != nil {
+						if attrProfile := tagAttrMetadata(nodeProfile, attrAboutIdx); attrProfile != nil && attrProfile.ValueOffsets != nil {
 							newSubjectAnno = attrProfile.ValueOffsets
 						}
 					}
@@ -739,7 +740,7 @@ func (v *Decoder) walkNode(ectx evaluationContext, n *html.Node) error {
 					currentObjectResourceAnno = nil
 
 					if v.captureOffsets {
-						if attrProfile := nodeProfile.TagAttr[attrResourceIdx]; attrProfile != nil && attrProfile.ValueOffsets != nil {
+						if attrProfile := tagAttrMetadata(nodeProfile, attrResourceIdx); attrProfile != nil && attrProfile.ValueOffsets != nil {
 							currentObjectResourceAnno = attrProfile.ValueOffsets
 						}
 					}
@@ -752,7 +753,7 @@ func (v *Decoder) walkNode(ectx evaluationContext, n *html.Node) error {
 					currentObjectResourceAnno = nil
 
 					if v.captureOffsets {
-						if attrProfile := nodeProfile.TagAttr[attrHrefIdx]; attrProfile != nil && attrProfile.ValueOffsets != nil {
+						if attrProfile := tagAttrMetadata(nodeProfile, attrHrefIdx); attrProfile != nil && attrProfile.ValueOffsets != nil {
 							currentObjectResourceAnno = attrProfile.ValueOffsets
 						}
 					}
@@ -765,7 +766,7 @@ func (v *Decoder) walkNode(ectx evaluationContext, n *html.Node) error {
 					currentObjectResourceAnno = nil
 
 					if v.captureOffsets {
-						if attrProfile := nodeProfile.TagAttr[attrSrcIdx]; attrProfile != nil && attrProfile.ValueOffsets != nil {
+						if attrProfile := tagAttrMetadata(nodeProfile, attrSrcIdx); attrProfile != nil && attrProfile.ValueOffsets != nil {
 							currentObjectResourceAnno = attrProfile.ValueOffsets
 						}
 					}
@@ -794,7 +795,7 @@ func (v *Decoder) walkNode(ectx evaluationContext, n *html.Node) error {
 			var predicateRange *cursorio.TextOffsetRange
 
 			if v.captureOffsets {
-				if attrProfile := nodeProfile.TagAttr[attrTypeofIdx]; attrProfile != nil {
+				if attrProfile := tagAttrMetadata(nodeProfile, attrTypeofIdx); attrProfile != nil {
 					predicateRange = &attrProfile.KeyOffsets
 				}
 			}
@@ -816,7 +817,7 @@ func (v *Decoder) walkNode(ectx evaluationContext, n *html.Node) error {
 					var anno *cursorio.TextOffsetRange
 
 					if v.captureOffsets {
-						if attrProfile := nodeProfile.TagAttr[attrTypeofIdx]; attrProfile != nil && attrProfile.ValueOffsets != nil {
+						if attrProfile := tagAttrMetadata(nodeProfile, attrTypeofIdx); attrProfile != nil && attrProfile.ValueOffsets != nil {
 							// TODO resurrect offset writer
 
 							anno = attrProfile.ValueOffsets
@@ -897,7 +898,7 @@ func (v *Decoder) walkNode(ectx evaluationContext, n *html.Node) error {
 				var predicateRange *cursorio.TextOffsetRange
 
 				if v.captureOffsets {
-					if attrProfile := nodeProfile.TagAttr[attrRelIdx]; attrProfile != nil && attrProfile.ValueOffsets != nil {
+					if attrProfile := tagAttrMetadata(nodeProfile, attrRelIdx); attrProfile != nil && attrProfile.ValueOffsets != nil {
 						predicateRange = attrProfile.ValueOffsets
 					}
 				}
@@ -946,7 +947,7 @@ func (v *Decoder) walkNode(ectx evaluationContext, n *html.Node) error {
 				var predicateRange *cursorio.TextOffsetRange
 
 				if v.captureOffsets {
-					if attrProfile := nodeProfile.TagAttr[attrRevIdx]; attrProfile != nil && attrProfile.ValueOffsets != nil {
+					if attrProfile := tagAttrMetadata(nodeProfile, attrRevIdx); attrProfile != nil && attrProfile.ValueOffsets != nil {
 						predicateRange = attrProfile.ValueOffsets
 					}
 				}
@@ -982,11 +983,11 @@ func (v *Decoder) walkNode(ectx evaluationContext, n *html.Node) error {
 
 		if v.captureOffsets {
 			if attrRel != nil {
-				if attrProfile := nodeProfile.TagAttr[attrRelIdx]; attrProfile != nil && attrProfile.ValueOffsets != nil {
+				if attrProfile := tagAttrMetadata(nodeProfile, attrRelIdx); attrProfile != nil && attrProfile.ValueOffsets != nil {
 					currentObjectResourceAnno = attrProfile.ValueOffsets
 				}
 			} else {
-				if attrProfile := nodeProfile.TagAttr[attrRevIdx]; attrProfile != nil && attrProfile.ValueOffsets != nil {
+				if attrProfile := tagAttrMetadata(nodeProfile, attrRevIdx); attrProfile != nil && attrProfile.ValueOffsets != nil {
 					currentObjectResourceAnno = attrProfile.ValueOffsets
 				}
 			}
@@ -996,7 +997,7 @@ func (v *Decoder) walkNode(ectx evaluationContext, n *html.Node) error {
 			var predicateRange *cursorio.TextOffsetRange
 
 			if v.captureOffsets {
-				if attrProfile := nodeProfile.TagAttr[attrRelIdx]; attrProfile != nil && attrProfile.ValueOffsets != nil {
+				if attrProfile := tagAttrMetadata(nodeProfile, attrRelIdx); attrProfile != nil && attrProfile.ValueOffsets != nil {
 					predicateRange = attrProfile.ValueOffsets
 				}
 			}
@@ -1048,7 +1049,7 @@ func (v *Decoder) walkNode(ectx evaluationContext, n *html.Node) error {
 			var predicateRange *cursorio.TextOffsetRange
 
 			if v.captureOffsets {
-				if attrProfile := nodeProfile.TagAttr[attrRevIdx]; attrProfile != nil && attrProfile.ValueOffsets != nil {
+				if attrProfile := tagAttrMetadata(nodeProfile, attrRevIdx); attrProfile != nil && attrProfile.ValueOffsets != nil {
 					predicateRange = attrProfile.ValueOffsets
 				}
 			}
@@ -1103,7 +1104,7 @@ func (v *Decoder) walkNode(ectx evaluationContext, n *html.Node) error {
 				}
 			} else {
 				if v.captureOffsets {
-					if attrProfile := nodeProfile.TagAttr[attrDatetimeIdx]; attrProfile != nil && attrProfile.ValueOffsets != nil {
+					if attrProfile := tagAttrMetadata(nodeProfile, attrDatetimeIdx); attrProfile != nil && attrProfile.ValueOffsets != nil {
 						currentPropertyValueAnno = attrProfile.ValueOffsets
 					}
 				}
@@ -1145,7 +1146,7 @@ func (v *Decoder) walkNode(ectx evaluationContext, n *html.Node) error {
 				}
 
 				if v.captureOffsets {
-					if attrProfile := nodeProfile.TagAttr[attrContentIdx]; attrProfile != nil && attrProfile.ValueOffsets != nil {
+					if attrProfile := tagAttrMetadata(nodeProfile, attrContentIdx); attrProfile != nil && attrProfile.ValueOffsets != nil {
 						currentPropertyValueAnno = attrProfile.ValueOffsets
 					}
 				}
@@ -1173,7 +1174,7 @@ func (v *Decoder) walkNode(ectx evaluationContext, n *html.Node) error {
 				}
 
 				if v.captureOffsets {
-					if attrProfile := nodeProfile.TagAttr[attrContentIdx]; attrProfile != nil && attrProfile.ValueOffsets != nil {
+					if attrProfile := tagAttrMetadata(nodeProfile, attrContentIdx); attrProfile != nil && attrProfile.ValueOffsets != nil {
 						currentPropertyValueAnno = attrProfile.ValueOffsets
 					}
 				}
@@ -1235,7 +1236,7 @@ func (v *Decoder) walkNode(ectx evaluationContext, n *html.Node) error {
 			}
 
 			if v.captureOffsets {
-				if attrProfile := nodeProfile.TagAttr[attrContentIdx]; attrProfile != nil && attrProfile.ValueOffsets != nil {
+				if attrProfile := tagAttrMetadata(nodeProfile, attrContentIdx); attrProfile != nil && attrProfile.ValueOffsets != nil {
 					currentPropertyValueAnno = attrProfile.ValueOffsets
 				}
 			}
@@ -1246,7 +1247,7 @@ func (v *Decoder) walkNode(ectx evaluationContext, n *html.Node) error {
 					currentPropertyValueAnno = nil
 
 					if v.captureOffsets {
-						if attrProfile := nodeProfile.TagAttr[attrResourceIdx]; attrProfile != nil && attrProfile.ValueOffsets != nil {
+						if attrProfile := tagAttrMetadata(nodeProfile, attrResourceIdx); attrProfile != nil && attrProfile.ValueOffsets != nil {
 							currentPropertyValueAnno = attrProfile.ValueOffsets
 						}
 					}
@@ -1259,7 +1260,7 @@ func (v *Decoder) walkNode(ectx evaluationContext, n *html.Node) error {
 					currentPropertyValueAnno = nil
 
 					if v.captureOffsets {
-						if attrProfile := nodeProfile.TagAttr[attrHrefIdx]; attrProfile != nil && attrProfile.ValueOffsets != nil {
+						if attrProfile := tagAttrMetadata(nodeProfile, attrHrefIdx); attrProfile != nil && attrProfile.ValueOffsets != nil {
 							currentPropertyValueAnno = attrProfile.ValueOffsets
 						}
 					}
@@ -1272,7 +1273,7 @@ func (v *Decoder) walkNode(ectx evaluationContext, n *html.Node) error {
 					currentPropertyValueAnno = nil
 
 					if v.captureOffsets {
-						if attrProfile := nodeProfile.TagAttr[attrSrcIdx]; attrProfile != nil && attrProfile.ValueOffsets != nil {
+						if attrProfile := tagAttrMetadata(nodeProfile, attrSrcIdx); attrProfile != nil && attrProfile.ValueOffsets != nil {
 							currentPropertyValueAnno = attrProfile.ValueOffsets
 						}
 					}
@@ -1316,7 +1317,7 @@ func (v *Decoder) walkNode(ectx evaluationContext, n *html.Node) error {
 		var predicateRange *cursorio.TextOffsetRange
 
 		if v.captureOffsets {
-			if attrProfile := nodeProfile.TagAttr[attrPropertyIdx]; attrProfile != nil && attrProfile.ValueOffsets != nil {
+			if attrProfile := tagAttrMetadata(nodeProfile, attrPropertyIdx); attrProfile != nil && attrProfile.ValueOffsets != nil {
 				predicateRange = attrProfile.ValueOffsets
 			}
 		}
@@ -1646,3 +1647,14 @@ var (
 	fieldsNextSpace    = regexp.MustCompile(`^\s+`)
 	fieldsNextNonSpace = regexp.MustCompile(`^[^\s]+`)
 )
+
+// tagAttrMetadata returns the offsets recorded for the attribute at index i of the element's start
+// tag. There are none (nil) for an attribute which the tree builder merged into the element from a
+// later start tag (a second <html> or <body>), or when the element itself has no metadata.
+func tagAttrMetadata(nodeProfile *inspecthtml.NodeMetadata, i int) *inspecthtml.NodeAttributeMetadata {
+	if nodeProfile == nil || i < 0 || i >= len(nodeProfile.TagAttr) {
+		return nil
+	}
+
+	return nodeProfile.TagAttr[i]
+}
